@@ -124,6 +124,9 @@ def defBase (defs : GroupDefs) (k : Nat) : Nat :=
 
 /-! ### SchemaMapper + FlattenAttributeGroups: element sites with their paths -/
 
+/-- `Restrictions.merge` on the clone of a group's attr: `self.path = source.path + self.path` -/
+def addPrefix (pre : List PathE) (s : Site) : Site := { s with path := pre ++ s.path }
+
 mutual
 /-- `sub g` : the attrs of the flattened class of group `g`.  `index` is the number of the
 element declaration (`ElementBase.index`): clones of one declaration share it. -/
@@ -135,7 +138,7 @@ def gsitesAux (sub : Str → Option (List Site)) : GParticle → List PathE → 
   | .ref g min max, path, next =>
     -- `copy_group_attributes`: clones of the group's attrs, `merge`: path = reference path ++ own path
     match sub g with
-    | some ss => (ss.map fun s => { s with path := (path ++ [⟨.g, next, min, max⟩]) ++ s.path }, next + 1)
+    | some ss => (ss.map (addPrefix (path ++ [⟨.g, next, min, max⟩])), next + 1)
     | none => ([], next + 1)
 def gsitesList (sub : Str → Option (List Site)) : List GParticle → List PathE → Nat → List Site × Nat
   | [], _, next => ([], next)
